@@ -21,7 +21,7 @@ From SV Require Import Proofs.TcpProgressBase Proofs.TcpProgressFrame Proofs.Tcp
   Proofs.TcpProgressCl1 Proofs.TcpProgressCl2 Proofs.TcpProgressCl3 Proofs.TcpProgressCl4 Proofs.TcpProgressCl5
   Proofs.TcpProgressCl6 Proofs.TcpProgressCl7 Proofs.TcpProgressCl8 Proofs.TcpProgressCl9
   Proofs.TcpProgressCl10 Proofs.TcpProgressCl11 Proofs.TcpProgressCl12 Proofs.TcpProgressCl13
-  Proofs.TcpProgressHsRtx Proofs.TcpProgressHsAll.
+  Proofs.TcpProgressHsRtx Proofs.TcpProgressHsAll Proofs.TcpProgressHsSrv1 Proofs.TcpProgressHsSrv2.
 
 Module NV := TcpNetInv.
 Notation sz st z := (net_sock st z).
@@ -238,6 +238,65 @@ Proof.
     as (h1 & h2 & fa1 & sth & EH & Hh1 & Hh2 & HG & Hre & Hoh & _ & _ & Hch).
   split; [exists h1, h2, sth; split; [exact EH|]; split; [exact Hh1|]; split; [exact Hh2|]; split; [exact (rg_est _ _ _ HG) | exact Hch]|].
   (* the bookkeeping of the run so far, at the state in which both are ESTABLISHED *)
+  rewrite EH, <- app_assoc in Hfall, Hoall.
+  destruct (fair_run_app Dt Da h1 (h2 ++ rest) _ st sth Hh1 Hfall) as (Hf1 & Hf2).
+  destruct (once_run_app Dt Da h1 (h2 ++ rest) _ st sth Hh1 Hoall) as (_ & Ho2).
+  rewrite EH in HappH. apply Forall_app in HappH. destruct HappH as (_ & Happ2).
+  exact (quiesce_close_from_reg Dt Da Dack n _ sth h2 evsQ evs1 evs2 stD stQ stC st_m st' HDt HDa HDt2 HDack
+           Hre HG Hoh (dl_sync_run Dt Da h1 _ st sth (fa_init_sync Dt Da st) Hf1 Hh1)
+           (dlb_run Dt Da h1 _ st sth HDt (dlb_init Dt Da st HDt) Hf1 Hh1) Hf2 Ho2 Happ2 Hh2 HEQ HrQ Hsz HqQ Hn HlQ HsC HE1 Hr1 Hp1 Hr2 Hp2).
+Qed.
+
+(* THE SAME FROM A PREFIX THAT LOST THE CLIENT'S ACK: A is ESTABLISHED, B still in SYN-RECEIVED, A fresh; the
+   server leg with retransmissions (Proofs/TcpProgressHsSrv2.v) is the first part evsH of the reliable schedule. *)
+Theorem server_quiesce_close_after_fault_prefix Dt Da Dack ca cb st0 (n : nat) :
+  forall pre st evsH evsQ evs1 evs2 stD stQ stC st_m st',
+  start_ok Dack ca cb st0 -> 2 * Dt < tcp_RTTE_MIN_RTO * 1000 -> 0 <= Dack ->
+  (* the fault prefix: everything A transmitted since its SYN is lost *)
+  net_run st0 pre = Ok st -> Forall (script_ev SA) pre ->
+  s_state (net_sock st SA) = Established -> s_state (net_sock st SB) = SynReceived ->
+  fresh (cx_isn (ep_cx (n_a st0))) st ->
+  reliable_schedule Dt Da st (evsH ++ evsQ ++ NClose SA :: evs1 ++ NClose SB :: evs2) ->
+  (* the handshake completes; A writes, B reads *)
+  Forall (app_ev SA) evsH -> net_run st evsH = Ok stD ->
+  run_all syn_win_open st evsH -> Z.max (net_now st SA) (cA st) + max_rto_us + 2 * Dt < net_now stD SA ->
+  (* the applications neither write nor close *)
+  Forall qev evsQ -> net_run stD evsQ = Ok stQ ->
+  (forall z, l_len (ep_written (net_get stQ z)) < 2 ^ 30) ->
+  run_all qregime stD evsQ ->
+  (l_len (ep_written (net_get stD SA)) - una_off (net_get stD SA)) +
+  (l_len (ep_written (net_get stD SA)) - read_off (net_get stD SB)) <= Z.of_nat n ->
+  net_now stD SA + Z.of_nat n * Wz Dt Da + 2 * Dt + Dack < net_now stQ SA ->
+  (* A closes; B closes in CLOSE-WAIT *)
+  net_step stQ (NClose SA) = Ok stC ->
+  Forall (cl_ev SA false) evs1 -> net_run stC evs1 = Ok st_m -> net_now stQ SA + 2 * Dt < net_now st_m SA ->
+  net_run st_m (NClose SB :: evs2) = Ok st' ->
+  net_now st_m SA + 3 * Dt + tcp_CLOSE_DELAY < net_now st' SA ->
+  (exists h1 h2 sth,
+     evsH = h1 ++ h2 /\ net_run st h1 = Ok sth /\ net_run sth h2 = Ok stD /\
+     (forall z, s_state (net_sock sth z) = Established) /\
+     net_now sth SA <= Z.max (net_now st SA) (cA st) + max_rto_us + 2 * Dt) /\
+  (exists p1 p2 sta,
+     evsQ = p1 ++ p2 /\ net_run stD p1 = Ok sta /\ net_run sta p2 = Ok stQ /\
+     una_off (net_get sta SA) = l_len (ep_written (net_get stD SA)) /\
+     read_off (net_get sta SB) = l_len (ep_written (net_get stD SA))) /\
+  (exists pre2 post st_c,
+     evs2 = pre2 ++ post /\ net_run st_m (NClose SB :: pre2) = Ok st_c /\ net_run st_c post = Ok st' /\
+     both_closed st_c).
+Proof.
+  intros pre st evsH evsQ evs1 evs2 stD stQ stC st_m st' Hstart HDt2 HDack Hpre Hscp Hsa Hsb Hfr Hrel HappH HrH HwinH HlH HEQ HrQ Hsz HqQ Hn HlQ
+         HsC HE1 Hr1 Hp1 Hr2 Hp2.
+  pose proof Hrel as ((HDt & HDa & Ho0 & Hfall) & Hoall).
+  set (rest := evsQ ++ NClose SA :: evs1 ++ NClose SB :: evs2) in *.
+  assert (HsmQ : NV.small stQ).
+  { split; [specialize (Hsz SA) | specialize (Hsz SB)]; cbn [net_get] in Hsz; change (2 ^ 30) with 1073741824 in Hsz; lia. }
+  pose proof (net_run_mono _ _ _ HrQ) as HmQ.
+  assert (HsmD : NV.small stD) by exact (NV.small_mono _ _ HmQ HsmQ).
+  destruct (fair_run_app Dt Da evsH rest _ st stD HrH Hfall) as (HfH & _).
+  assert (HfsH : fair_schedule Dt Da st evsH) by (split; [exact HDt|]; split; [exact HDa|]; split; assumption).
+  destruct (server_established_after_ack_loss Dt Da Dack ca cb st0 Hstart pre st evsH stD Hpre Hscp Hsa Hsb Hfr HfsH HappH HrH HsmD HwinH HlH)
+    as (h1 & h2 & fa1 & sth & EH & Hh1 & Hh2 & HG & Hre & Hoh & _ & _ & Hch).
+  split; [exists h1, h2, sth; split; [exact EH|]; split; [exact Hh1|]; split; [exact Hh2|]; split; [exact (rg_est _ _ _ HG) | exact Hch]|].
   rewrite EH, <- app_assoc in Hfall, Hoall.
   destruct (fair_run_app Dt Da h1 (h2 ++ rest) _ st sth Hh1 Hfall) as (Hf1 & Hf2).
   destruct (once_run_app Dt Da h1 (h2 ++ rest) _ st sth Hh1 Hoall) as (_ & Ho2).
